@@ -1,6 +1,6 @@
 """Shared helpers of the check driver: run the harness and the Lean driver on the same cases,
 canonicalise outcomes, compare."""
-import os, re, subprocess, sys, json, hashlib, time
+import hashlib, os, re, subprocess, sys, json, hashlib, time
 
 VERIF = os.path.dirname(os.path.dirname(os.path.abspath(__file__)))
 REPO = os.environ.get("O2O_REPO", "/repo")
@@ -17,13 +17,35 @@ def harness_bin(backend):
     return os.path.join(HARNESS_DIR, tdir, "debug", "harness")
 
 
+def repo_sources_hash():
+    """content hash of everything of /repo the harness is built from"""
+    h = hashlib.sha256()
+    root = os.path.join(REPO, "o2o-impl")
+    for base, dirs, files in sorted(os.walk(root)):
+        dirs[:] = sorted(d for d in dirs if d not in ("target", "target2"))
+        for f in sorted(files):
+            if f.endswith(".rs") or f == "Cargo.toml":
+                pth = os.path.join(base, f)
+                h.update(pth.encode())
+                h.update(open(pth, "rb").read())
+    return h.hexdigest()
+
+
 def build_harness(backend):
-    """cargo build of the harness against /repo's working tree (path dependency)."""
-    if backend == "s1":
-        cmd = ["cargo", "build", "--offline", "--quiet"]
-    else:
-        cmd = ["cargo", "build", "--offline", "--quiet", "--no-default-features", "--features", "s2", "--target-dir", "target2"]
-    r = subprocess.run(cmd, cwd=HARNESS_DIR, env=ENV, stdout=subprocess.PIPE, stderr=subprocess.STDOUT, text=True)
+    """cargo build of the harness against /repo's working tree (path dependency). cargo decides by modification times,
+    which two edits within one second (a patch applied right after a build) can defeat: the sources' *content* hash is
+    kept next to the build, and a changed hash drops the path dependency's build before cargo is asked"""
+    tdir = "target" if backend == "s1" else "target2"
+    feat = [] if backend == "s1" else ["--no-default-features", "--features", "s2", "--target-dir", "target2"]
+    stamp = os.path.join(HARNESS_DIR, tdir, ".repo_sources_hash")
+    hsh = repo_sources_hash()
+    old = open(stamp).read().strip() if os.path.exists(stamp) else ""
+    if old != hsh:
+        subprocess.run(["cargo", "clean", "--offline", "-p", "o2o-impl"] + feat, cwd=HARNESS_DIR, env=ENV, stdout=subprocess.PIPE, stderr=subprocess.STDOUT, text=True)
+    r = subprocess.run(["cargo", "build", "--offline", "--quiet"] + feat, cwd=HARNESS_DIR, env=ENV, stdout=subprocess.PIPE, stderr=subprocess.STDOUT, text=True)
+    if r.returncode == 0:
+        os.makedirs(os.path.dirname(stamp), exist_ok=True)
+        open(stamp, "w").write(hsh)
     return r.returncode == 0, r.stdout
 
 
